@@ -196,6 +196,12 @@ def parse : Nat → List Token → Parent → Except Err (List Structure)
         else if isCloserCh ch || ch = 32 || ch = cBar then parse n ts par
         else do let r ← parse n ts par; pure (.generic t :: r)
 
+/-- the element a map / filter / sort lambda is followed by (`struct.after`: `M`, `F`, `ṡ`) -/
+def lamOpKey : Parent → Str
+  | .lmap => [77]
+  | .lfilter => [70]
+  | _ => [7777]
+
 def parseTop (ts : List Token) : Except Err (List Structure) := parse (ts.length + 1) ts .none
 
 end Vy
